@@ -20,25 +20,25 @@ type chunk struct {
 }
 
 type fault struct {
-	Kind  string
-	Text  string // LF line ends; ends with "\n"
-	Line  int    // 0-based line inside Text on which the diagnostic must be reported
-	Span  int    // the faulty construct itself spans Line..Line+Span: any of these lines is accepted
+	Kind string
+	Text string // LF line ends; ends with "\n"
+	Line int    // 0-based line inside Text on which the diagnostic must be reported
+	Span int    // the faulty construct itself spans Line..Line+Span: any of these lines is accepted
 	// Lines [0,UseFrom) of Text are declarations (classes, functions) that stay at top level;
 	// lines [UseFrom,…) are plain statements that a wrapper may move into a function / method /
 	// closure body that is called from another line.
 	UseFrom int
-	Nonce string // text that the diagnostic's message must contain ("" = learn from baseline)
-	Parse bool   // a parse-time fault (nothing runs)
-	AtEOF bool   // the fault is the last thing in the file and is detected at end of input:
+	Nonce   string // text that the diagnostic's message must contain ("" = learn from baseline)
+	Parse   bool   // a parse-time fault (nothing runs)
+	AtEOF   bool   // the fault is the last thing in the file and is detected at end of input:
 	// any line from the fault's line to the line after the last newline is accepted
 }
 
 type program struct {
 	Mode    string // "zy" (script mode, lexer.Tokenize) | "php" (template mode, lexer.TokenizeTemplate)
 	CRLF    bool
-	Shebang bool // "#!..." first line (php mode only)
-	Include bool // the program is require'd from a one-line main file; the diagnostic must name the included file
+	Shebang bool   // "#!..." first line (php mode only)
+	Include bool   // the program is require'd from a one-line main file; the diagnostic must name the included file
 	Wrap    string // "" | func | method | static | closure | nested: where the fault's statements run (runtime faults only)
 	Head    []chunk
 	Fault   *fault
@@ -544,6 +544,9 @@ func genProgram(r *rand.Rand, withFault bool, q quarantine) *program {
 		p.Include = r.Intn(6) == 0
 		if !p.Fault.Parse && r.Intn(5) < 3 {
 			p.Wrap = wrapKinds[r.Intn(len(wrapKinds))]
+			if q.staticInClosure && k == "undef-class-static" && p.Wrap == "closure" {
+				p.Wrap = "func"
+			}
 		}
 	}
 	p.Tail = g.randomChunks(r.Intn(3))
@@ -559,6 +562,7 @@ type quarantine struct {
 	mlInterp        bool // never plant a fault inside an interpolation on a later line of a string
 	byteNewline     bool // no byte literal with a line break inside
 	nonUTF8String   bool // no string literal with bytes that are not UTF-8
+	staticInClosure bool // no static call on an undefined class inside a closure body
 }
 
 func (q quarantine) faultOff(k string) bool {
@@ -676,4 +680,21 @@ func injection(r *rand.Rand, template bool, q quarantine) (kind, text string) {
 		return k, " ?>\n<p>\n" + words(r, 2, 70) + "\n</p>\n<?php "
 	}
 	return k, ""
+}
+
+// prefixes that a lexer might be tempted to strip before lexing (and then report offsets of
+// the shortened text): byte order mark, shebang, blank lead-in, HTML in front of the open tag
+var sourcePrefixes = []struct{ Name, Text string }{
+	{"bom", "\xef\xbb\xbf"},
+	{"bom+shebang", "\xef\xbb\xbf#!/usr/bin/env origami\n"},
+	{"bom+blank", "\xef\xbb\xbf\n"},
+	{"shebang", "#!/usr/bin/env origami\n"},
+	{"shebang-crlf", "#!/usr/bin/env origami\r\n"},
+	{"blank-lines", "\n\n"},
+	{"spaces", "   "},
+	{"crlf", "\r\n"},
+	{"mixed-blank", " \t\r\n\r\n"},
+	{"fwspace", "\u3000\n"},
+	{"html", "<html>\n<body>é\n"},
+	{"html-comment", "<!-- ü -->"},
 }
